@@ -23,6 +23,7 @@ def harness(cls, img, osz):
          '    vp_bytes(in_ + 16, %d, "img");' % (osz - 16),
          '    MemFile mf(in_, %d, %d);' % (n, n),
          '    T t;',
+         '    vp_watch(in_, %d, "in");' % n,
          '    t.read(mf);',
          '    vp_concolic_stop();',
          '    { static unsigned char o_[%d]; memcpy(o_, IMG0, %d); MemFile m0(o_, %d, %d); T t0; t0.read(m0);' % (n + 8, n, n, n),
@@ -69,6 +70,19 @@ def make_judge(cls, n, osz, img):
             return
         a = list(J.out(st, 'in'))
         b = list(J.out(st, 'out'))
+        # image bytes the decoder never looks at (skipped union slack, padding) are not field values: the encoder must
+        # reproduce the ORIGINAL there
+        rd = st.flags.get('reads:in')
+        if rd is not None:
+            for i in range(16, osz):
+                if i not in rd:
+                    a[i] = img[i]
+        # objectSize / headerSize are recomputed by design; when the original declares a size that is not the extent of
+        # its own data (some Vector images do), the recomputed value is what has to be there
+        declared = int.from_bytes(bytes(img[8:12]), 'little')
+        if declared + (n - declared if 0 <= n - declared < 4 else 0) != n:
+            for i in (8, 9, 10, 11):
+                a[i] = b[i]
         for off, ln in RECOMPUTED.get(cls, ()):
             for i in range(off, off + ln):
                 # the recomputed value must reproduce the ORIGINAL image's bytes
